@@ -3,6 +3,7 @@ package main
 // C14 — retention cleanup deletes only this appender's own expired files.
 
 import (
+	"math"
 	"bytes"
 	"encoding/json"
 	"fmt"
@@ -47,9 +48,17 @@ func c14gen(r *rand.Rand) *c14case {
 	default:
 		c.MaxAge = int32(1 + r.IntN(720))
 	}
+	if r.IntN(12) == 0 {
+		// "keep practically for ever": any positive number of hours the attribute's type (int32) can hold
+		c.MaxAge = []int32{876000, 999999, 2562047, 2562048, 5000000, 1 << 30, math.MaxInt32}[r.IntN(7)]
+	}
 	c.Sibling = r.IntN(3) == 0
 	maxMin := int(c.MaxAge) * 60
 	age := func() int {
+		if c.MaxAge > 800000 {
+			// nothing can be that old: every file is younger than the maximum age (minutes: now, 10 h, 70 days, 9.5 years)
+			return []int{0, 600, 100000, 5000000}[r.IntN(4)]
+		}
 		switch r.IntN(8) {
 		case 0:
 			return 0
